@@ -17,7 +17,7 @@ from vlib.runner import Ctx, Failure
 LEVEL = "exploration"
 RULE = (
     "2..3 endpoints, each a real thread with a script projected from a global message plan (<=4 sends per endpoint; "
-    "connect, send, send_silent, send_structured, blocking recv (with and without a timeout), non-blocking recv, recv_silent, disconnect; "
+    "connect, send, send_silent, send_structured, blocking recv (without, with a generous and with an expiring time limit on the virtual clock; after a timeout the receive is repeated), non-blocking recv, recv_silent, disconnect; "
     "message texts include the empty string and repeated texts; plain and callback delivery; 1..2 socket ids; in a third of the "
     "scenarios one endpoint closes a socket part-way and opens it again, possibly with the other delivery mode) plus a schedule = list of small ints choosing the next thread at every statement of the hub; Hypothesis draws both; "
     "both tiers enumerate every single-preemption schedule of five fixed scripts; thorough also enumerates all schedules with <=3 preemptions for small two-endpoint scripts.  Non-trivial = >=1 "
@@ -70,7 +70,7 @@ def st_scenario(draw):
         sends_per[src] = sends_per.get(src, 0) + 1
         plan.append({"src": src, "dst": dst, "sid": c["sid"], "msg": draw(st.sampled_from([f"m{k}", f"m{k}", f"m{k}", "", "dup"])), "structured": draw(st.integers(0, 3)) == 0,
                      "recv": draw(st.sampled_from(["block", "block", "nb-then-block"])), "via": draw(st.sampled_from(["logged", "logged", "silent"])),
-                     "timeout": draw(st.sampled_from([None, None, 1e6]))})
+                     "timeout": draw(st.sampled_from([None, None, 1e6, 0.05, 0.15, 0.25, 0.35]))})
     extra_nb = draw(st.lists(st.tuples(st.sampled_from(names), st.integers(0, 8)), max_size=2))
     disconnect = {n: draw(st.booleans()) for n in names}
     schedule = draw(st_schedule())
@@ -218,13 +218,20 @@ def run(scn) -> Dict[str, Any]:
                         log.append((name, "sent", op[1], op[2], op[3]))
                     elif k == "recv":
                         kw = {"timeout": op[5]} if len(op) > 5 and op[5] is not None else {}
-                        if op[3]:
-                            m = socks[key].recv_structured(**kw)
-                            m = m.payload
-                        elif len(op) > 4 and op[4]:
-                            m = _payload(socks[key].recv_silent(**kw))
-                        else:
-                            m = _payload(socks[key].recv(**kw))
+                        while True:
+                            try:
+                                if op[3]:
+                                    m = socks[key].recv_structured(**kw)
+                                    m = m.payload
+                                elif len(op) > 4 and op[4]:
+                                    m = _payload(socks[key].recv_silent(**kw))
+                                else:
+                                    m = _payload(socks[key].recv(**kw))
+                                break
+                            except TimeoutError:
+                                # the time limit ran out (virtual clock): nothing was received; ask again without a limit
+                                log.append((name, "timeout", op[1], op[2]))
+                                kw = {}
                         log.append((name, "recv", op[1], op[2], m))
                     elif k == "recv_nb":
                         slept = sch.sleep_count.get(name, 0)
@@ -355,6 +362,7 @@ def run(scn) -> Dict[str, Any]:
                 if len(got.get(key, [])) + len(cbgot.get(key, []) if scn.get("reconnect") else []) < len(sent.get(key, [])) and (modes[(x[0], x[3], x[4])] == "plain" or scn.get("reconnect")):
                     raise Failure("delivery:lost", case, f"endpoint {x[0]} blocks forever although {sent.get(key)} was sent to it (received {got.get(key, [])})")
         info["sent"] = n_sent
+        info["timeouts"] = sum(1 for x in log if x[1] == "timeout")
         return info
     finally:
         for s in list(socks.values()) + old_socks:
@@ -389,6 +397,8 @@ def shard(ctx: Ctx) -> None:
                 labels.append("empty-string-message")
             if any(m.get("via") == "silent" for m in scn["plan"]):
                 labels.append("silent-entry-points")
+            if info.get("timeouts"):
+                labels.append("receive-timed-out")
         stt.case(scn, nt, labels, sample=scn if len(str(scn)) < 900 else None)
 
     ctx.search(st_scenario(), body, n, name="c18")
